@@ -84,59 +84,74 @@ class SweepView(FnView):
 
 
 def counting_loop(view, loop):
-    """-> dict(d, init, op, bound, step, where) for `for(T v = init; v op bound; step)`; the step may be the
-    first statement of the body (`for(i = n; i > 0;) { --i; ...`) -> where='body-first'"""
-    if loop.get("k") != "For":
-        raise NotRecognised("not a for loop")
-    init = loop.get("init")
+    """-> dict(d, init, cond, step, where, stmts) for `for(T v = init; v op bound; step)`; the step may be the
+    first statement of the body (`for(i = n; i > 0;) { --i; ...`) -> where='body-first', or the last one (== 'inc').
+    `T v = init; while(v op bound) { ...; step; }` is accepted as well."""
+    if loop.get("k") not in ("For", "While"):
+        raise NotRecognised("not a for/while loop")
+    c = strip(loop.get("c") or {})
+    if c.get("k") != "Bin" or c.get("op") not in FLIP:
+        raise NotRecognised("loop condition %s" % render(c))
+    body = loop.get("body")
+    stmts = body.get("s", []) if body is not None and body.get("k") == "Block" else ([body] if body else [])
+    inc = loop.get("inc") if loop["k"] == "For" else None
+    init = loop.get("init") if loop["k"] == "For" else None
+
+    def stepof(n, d):
+        n = strip(n) if n else {}
+        if n.get("k") == "Un" and n.get("op") in ("++", "--") and strip(n["e"]).get("k") == "Ref" and (d is None or strip(n["e"])["d"] == d):
+            return (1 if n["op"] == "++" else -1), strip(n["e"])["d"]
+        if n.get("k") == "Assign" and n.get("op") in ("+=", "-=") and strip(n["lhs"]).get("k") == "Ref" and (d is None or strip(n["lhs"])["d"] == d) \
+                and strip(n["rhs"]).get("k") == "Int" and int(strip(n["rhs"])["v"]) == 1:
+            return (1 if n["op"] == "+=" else -1), strip(n["lhs"])["d"]
+        return None, None
     d = None
     initv = None
+    init_id = None
     if init is not None and init.get("k") == "Decl" and len(init.get("vars", [])) == 1:
         d = init["vars"][0]["d"]
         initv = init["vars"][0].get("init")
     elif init is not None and init.get("k") == "Assign" and init.get("op") == "=" and strip(init["lhs"]).get("k") == "Ref":
         d = strip(init["lhs"])["d"]
         initv = init["rhs"]
-    elif init is None and loop.get("inc") is not None:
-        # `T v = start; for(; cond; ++v)`: the variable is the one stepped, its start value the declaration's
-        t = strip(loop["inc"])
-        t = strip(t.get("e") or t.get("lhs") or {})
-        if t.get("k") != "Ref" or t.get("d") not in view.locals or view.locals[t["d"]].get("init") is None:
-            raise NotRecognised("loop without initialisation: %s" % render(loop))
-        d = t["d"]
-        initv = view.locals[d]["init"]
-        init = {"k": "None"}
-    else:
+        init_id = init.get("i")
+    elif init is not None:
         raise NotRecognised("loop initialisation %s" % render(init))
-    c = strip(loop.get("c") or {})
-    if c.get("k") != "Bin" or c.get("op") not in FLIP:
-        raise NotRecognised("loop condition %s" % render(c))
-    inc = loop.get("inc")
-    body = loop.get("body")
-    stmts = body.get("s", []) if body is not None and body.get("k") == "Block" else ([body] if body else [])
-    step = where = None
-    stepnode = None
-
-    def stepof(n):
-        n = strip(n) if n else {}
-        if n.get("k") == "Un" and n.get("op") in ("++", "--") and strip(n["e"]).get("k") == "Ref" and strip(n["e"])["d"] == d:
-            return 1 if n["op"] == "++" else -1
-        if n.get("k") == "Assign" and n.get("op") in ("+=", "-=") and strip(n["lhs"]).get("k") == "Ref" and strip(n["lhs"])["d"] == d \
-                and strip(n["rhs"]).get("k") == "Int" and int(strip(n["rhs"])["v"]) == 1:
-            return 1 if n["op"] == "+=" else -1
-        return None
+    step = where = stepnode = None
+    cands = []
     if inc is not None:
-        step = stepof(inc)
-        where = "inc"
-        stepnode = inc
-    elif stmts:
-        step = stepof(stmts[0])
-        where = "body-first"
-        stepnode = stmts[0]
-        stmts = stmts[1:]
-    if step is None:
+        cands.append((inc, "inc"))
+    if stmts:
+        cands.append((stmts[0], "body-first"))
+        if len(stmts) > 1 and not any(x.get("k") == "Continue" for x in walk(body)):
+            cands.append((stmts[-1], "inc-last"))
+    for node, wh in cands:
+        st, dd = stepof(node, d)
+        if st is not None and (d is not None or any(x.get("k") == "Ref" and x.get("d") == dd for x in walk(c))):
+            step, where, stepnode, d = st, wh, node, dd
+            break
+    if step is None or d is None:
         raise NotRecognised("loop step of %s" % render(loop))
-    others = [w for w in view.writes.get(d, []) if w is not strip(stepnode) and w.get("i") != strip(stepnode).get("i") and w.get("i") != (init.get("i") if init.get("k") == "Assign" else None)]
+    if where == "body-first":
+        stmts = stmts[1:]
+    elif where == "inc-last":
+        stmts = stmts[:-1]
+        where = "inc"
+    if initv is None:
+        # start value: the declaration's initialiser, or the single plain assignment outside the loop
+        var = view.locals.get(d)
+        inside = {x.get("i") for x in walk(loop)}
+        outer = [w for w in view.writes.get(d, []) if w.get("i") not in inside]
+        if outer:
+            if len(outer) != 1 or outer[0].get("k") != "Assign" or outer[0].get("op") != "=":
+                raise NotRecognised("start value of the loop variable of %s" % render(loop))
+            initv = outer[0]["rhs"]
+            init_id = outer[0].get("i")
+        elif var is not None and var.get("init") is not None:
+            initv = var["init"]
+        else:
+            raise NotRecognised("loop without initialisation: %s" % render(loop))
+    others = [w for w in view.writes.get(d, []) if w.get("i") != strip(stepnode).get("i") and w.get("i") != init_id]
     if others:
         raise NotRecognised("loop variable written inside the loop: %s" % render(others[0]))
     return {"d": d, "init": initv, "cond": c, "step": step, "where": where, "stmts": stmts, "loop": loop}
@@ -157,6 +172,13 @@ def cond_on(view, c, d):
 
 class Sweep:
     pass
+
+
+def is_step(w):
+    """++v / --v / v += 1 / v -= 1"""
+    if w.get("k") == "Un" and w.get("op") in ("++", "--"):
+        return True
+    return w.get("k") == "Assign" and w.get("op") in ("+=", "-=") and strip(w["rhs"]).get("k") == "Int" and int(strip(w["rhs"])["v"]) == 1
 
 
 def extract_sweep(view, loop):
@@ -436,7 +458,7 @@ def extract_sweep(view, loop):
             for v in st.get("vars", []):
                 # never-written locals are resolved lazily at their uses (through their initialiser)
                 if v.get("init") is not None:
-                    if any(w.get("k") == "Un" for w in view.writes.get(v["d"], [])):
+                    if any(is_step(w) for w in view.writes.get(v["d"], [])):
                         continue        # an index stepped by an inner loop
                     try:
                         env[v["d"]] = conv(v["init"])
@@ -445,12 +467,14 @@ def extract_sweep(view, loop):
                             raise
                         env[v["d"]] = ("poison", str(ex))   # may still serve as an index (resolved structurally)
             continue
-        if k == "For":
+        if k in ("For", "While"):
             if sw.inner is not None:
                 raise NotRecognised("more than one inner loop in a row sweep")
             sw.inner = do_inner(st)
             after_inner[0] = True
             continue
+        if k == "Assign" and st.get("op") == "=" and strip(st["lhs"]).get("k") == "Ref" and any(is_step(w) for w in view.writes.get(strip(st["lhs"])["d"], [])):
+            continue        # start value of an index that an inner loop steps (taken up by counting_loop)
         if assign_stmt(st):
             continue
         raise NotRecognised("statement %s in the row loop" % render(st))
@@ -467,4 +491,4 @@ def extract_sweep(view, loop):
 def outer_loops(view):
     """top-level for loops of the function body (sweeps) in source order"""
     body = view.fn.body
-    return [s for s in body.get("s", []) if s.get("k") == "For"]
+    return [s for s in body.get("s", []) if s.get("k") in ("For", "While")]
